@@ -25,6 +25,7 @@
     spec fn issued(&self, u: J, s: Strat) -> bool {
         u is Obj && payload_of(self.sd_jwt_payload@, u->Obj_0, s, self.holder_key)
             && self.all_disclosures@.len() == hcount(J::Obj(without_root(u->Obj_0)), s)
+            && payload_enc(self.sd_jwt_payload@, u->Obj_0, s, self.holder_key, self.all_disclosures@, 0)
             && self.signed_ok() && self.combined_ok()
     }
     spec fn frame_sign(&self, o: &Self) -> bool {
